@@ -294,6 +294,21 @@ def to4(tok):
     return None
 
 
+def parse_wire(w):
+    """independent reading of an option area: list of (type, datahex) or None when malformed"""
+    if w == "-":
+        w = ""
+    b = [int(w[i:i + 2], 16) for i in range(0, len(w), 2)]
+    out, i = [], 0
+    while len(b) - i >= 2:
+        l = b[i + 1]
+        if l < 2 or l > len(b) - i:
+            return None
+        out.append((b[i], "".join("%02x" % x for x in b[i + 2:i + l])))
+        i += l
+    return out
+
+
 def monitor_all(case, impl):
     """The property itself, evaluated on the implementation's output: list of (text, finding class or None)."""
     out = []
@@ -369,6 +384,12 @@ def _monitor(case, impl, out):
                 if not a.startswith("sca:"):
                     continue
                 os = parse_opts(a.split(":", 2)[2])
+                req = parse_wire(f[-1])
+                if req is None:
+                    hit("Configure-Ack sent for a request whose option area is malformed")
+                elif req != os:
+                    hit("Configure-Ack %s does not echo the request %s: options the BNG did not accept are "
+                        "acknowledged implicitly" % (olist(["%d.%s" % o for o in os]), olist(["%d.%s" % o for o in req])[:120]))
                 if f[1] == "i":
                     asg = to4(f[2])
                     usable = asg is not None and asg != "00000000"
@@ -397,8 +418,15 @@ def _monitor(case, impl, out):
             if pa is None or pa in ("nil", "h00000000") or len(pa) != 9:
                 hit("startNCP left the session without a usable assigned address (pa=%s)" % pa, "aaa")
                 return          # everything after that is a consequence
-            for p in parts[1:]:
+            for ev, p in zip(f[2:], parts[1:]):
                 toks = p.split()
+                if ev[0] == "q":
+                    req = parse_wire(ev.split(".", 1)[1])
+                    for a in toks:
+                        if a.startswith("sca:"):
+                            os = parse_opts(a.split(":", 2)[2])
+                            if req is None or req != os:
+                                hit("Configure-Ack %s does not echo the request %s" % (a, ev[:120]))
                 kv = dict(x.split("=", 1) for x in toks if "=" in x)
                 if kv.get("a") != pa:
                     hit("session address %s differs from the assigned address %s" % (kv.get("a"), pa),
